@@ -102,6 +102,11 @@ def harnesses(tier):
                        units=['repo:mmd.c', 'repo:token.c', 'repo:object_pool.c', 'repo:stack.c', 'repo:char.c'],
                        unwind=LN + 6, unwindset=['main.0:45', 'main.1:45', 'main.2:45'], timeout=600 if tier == 'quick' else 3000, mem_gb=4 if tier == 'quick' else 14, functional=True,
                        desc='mmd_assign_line_type, first token %s: the line gets a kind from the emitted set for any second token, source bytes, scanner answers, extensions' % k))
+    hs.append(dict(name='c02_defblock_retyped', src='c02/defblock.c', defs=dict(DS_CAP=12), pool_off=True,
+                   units=[dict(src='repo:writer.c', remove=['footnote_new', 'definition_extract', 'strip_leading_whitespace', 'clean_string_from_range'], cflags=['-include', 'vh_libc.h']), 'repo:token.c', 'repo:stack.c', 'repo:object_pool.c', 'repo:char.c', 'common/ds_model.c'],
+                   unwind=12, timeout=600, mem_gb=6, functional=True, replay=False,
+                   bounds='all 5 definition block kinds, label directly or inside a paragraph, note constructor returning a note / NULL / a note without clean text',
+                   desc='process_definition_block always leaves block->type == BLOCK_EMPTY (justifies excluding BLOCK_DEF_* from the writer dispatch check)'))
     for nm, unit, fn, trees in WRITERS:
         d = dict(EXPORT=fn, TREE1=trees[0], TREE2=trees[1], TREE3=trees[2], DS_CAP=8)
         hs.append(dict(name='c02_dispatch_' + nm, src='c02/dispatch.c', defs=d, prepare=gen_dispatch, pool_off=True,
